@@ -650,8 +650,9 @@ func histHash(hist []int) int {
 }
 
 type replay struct {
-	Bound int   `json:"bound"`
-	Hist  []int `json:"hist"`
+	Bound int             `json:"bound"`
+	Hist  []int           `json:"hist"`
+	Conc  []explore.Point `json:"conc,omitempty"` // concurrent part: the scheduler choices
 }
 
 func TestCheck(t *testing.T) {
@@ -662,7 +663,7 @@ func TestCheck(t *testing.T) {
 	r.Assume = []string{
 		"datastore contract: a single Put/Delete is atomic and durable and Query iterates in key order (badger), modelled by the logging KV double",
 		"an empty answer of GetNextBatch means the queue is empty (drain probes stop at the first empty answer)",
-		"sequential part only: one caller at a time (the concurrent part is a separate porcupine check)",
+		"concurrent part: 2 submitters (A,B / C) + 1 consumer (2 x next) under the cooperative scheduler (queue mutex via lock shim, datastore operations as gates), delay bound 3/5, queue sizes 1-3; each interleaving's call/return history + reload + drain is checked with porcupine against a bounded FIFO",
 		"an empty submission is neither an acceptance nor a rejection (model no-op, any return value)",
 	}
 	if r.ReplayPath() != "" {
@@ -670,6 +671,15 @@ func TestCheck(t *testing.T) {
 		if _, err := r.LoadReplay(&rp); err != nil {
 			r.EngineError(err.Error())
 		} else {
+			if rp.Conc != nil {
+				explore.ReplayOne(rp.Conc, func(c *explore.Ctx) {
+					if o := concBody(t, c, rp.Bound); o.fail != nil {
+						r.Report(vf.Violation{Clause: o.fail.Clause, Tags: []string{"concurrent"}, Msg: o.fail.Msg, History: rp})
+					}
+				})
+				r.Finish(vf.Coverage{Evaluations: 1, DistinctNontrivial: 1})
+				return
+			}
 			acts = alphabet(true) // superset; indices of the common actions agree
 			res := runHistory(acts, rp.Bound, rp.Hist)
 			fmt.Printf("replay bound=%d: %s\n", rp.Bound, strings.Join(res.trace, " ; "))
@@ -705,7 +715,7 @@ func TestCheck(t *testing.T) {
 			cmu.Unlock()
 			if len(res.viols) > 0 {
 				for _, v := range res.viols {
-					r.Report(vf.Violation{Clause: v.clause, Tags: v.tags, Msg: fmt.Sprintf("queue size %d: %s\n history: %s", bound, v.msg, strings.Join(res.trace, " ; ")), Cost: len(hist), History: replay{bound, hist}})
+					r.Report(vf.Violation{Clause: v.clause, Tags: v.tags, Msg: fmt.Sprintf("queue size %d: %s\n history: %s", bound, v.msg, strings.Join(res.trace, " ; ")), Cost: len(hist), History: replay{Bound: bound, Hist: hist}})
 				}
 				return explore.Step{Prune: true}
 			}
@@ -731,11 +741,34 @@ func TestCheck(t *testing.T) {
 		}
 		perBound[fmt.Sprintf("queue_size_%d", bound)] = map[string]any{"states": st.States, "transitions": st.Transitions, "depth_done": st.DepthDone, "fixpoint_reached": fix, "states_per_level": st.PerLevel}
 	}
+	// concurrent part: every interleaving (delay-bounded) of two submitters and a consumer, porcupine
+	var conc explore.Stats
+	for _, bound := range []int{1, 2, 3} {
+		st := explore.Explore(explore.Config{Budgets: map[string]int{"sched": vf.Pick(r, 3, 5)}, Deadline: vf.Pick(r, 30*time.Second, 8*time.Minute)}, func(c *explore.Ctx) {
+			o := concBody(t, c, bound)
+			if o.fail != nil {
+				r.Report(vf.Violation{Clause: o.fail.Clause, Tags: []string{"concurrent"}, Msg: fmt.Sprintf("queue size %d: %s", bound, o.fail.Msg), Cost: c.Cost(), History: replay{Bound: bound, Conc: c.Choices()}})
+				return
+			}
+			r.Outcome("conc:" + o.trace)
+			if c.Cost() == 2 {
+				r.Sample(map[string]any{"concurrent_history": o.trace, "queue_size": bound})
+			}
+		})
+		conc.Executions += st.Executions
+		conc.Points += st.Points
+		for _, m := range st.Nondet {
+			r.EngineError("nondeterminism (concurrent part): " + m)
+		}
+		if st.Capped != "" {
+			caps = append(caps, fmt.Sprintf("concurrent part, queue size %d: %s", bound, st.Capped))
+		}
+	}
 	r.Finish(vf.Coverage{
-		Evaluations: total.Transitions, DistinctNontrivial: total.States, States: total.States, Transitions: total.Transitions,
+		Evaluations: total.Transitions + conc.Executions, DistinctNontrivial: total.States, States: total.States, Transitions: total.Transitions,
 		Rule:       "every operation history up to the depth bound over the alphabet (submit A / B / A again with identical bytes / C, submit empty, submit under a foreign chain id, next, reload = new sequencer on the same datastore image, crash before the k-th durable write of a submit or a next followed by reload), for each queue size, executed from scratch on the real single.Sequencer over the logging datastore double; every history ends with a full drain and a reload probe; a history whose oracle fails is reported and not extended; histories are merged when volatile queue state (all BatchQueue fields, by reflection hook), durable image and reference model agree (the sequencer has no other mutable state); distinct = distinct merged states",
 		Exhaustive: complete && len(caps) == 0, Caps: caps,
 		Bounds: map[string]any{"depth": depth, "state_space_fixpoint_reached": fixpoint, "queue_sizes": bounds, "alphabet": len(acts), "per_queue_size": perBound},
-		Extra:  map[string]any{"submissions_accepted": accepted, "submissions_rejected": rejected, "batches_delivered_in_histories": delivered, "crashes_injected": crashes},
+		Extra:  map[string]any{"concurrent_interleavings_checked_with_porcupine": conc.Executions, "submissions_accepted": accepted, "submissions_rejected": rejected, "batches_delivered_in_histories": delivered, "crashes_injected": crashes},
 	})
 }
